@@ -1180,7 +1180,7 @@ result_t DataFieldSet::derive(const string& name, PartType partType, int divisor
 
 bool DataFieldSet::hasField(const char* fieldName, bool numeric) const {
   for (const auto field : m_fields) {
-    if (field->hasField(fieldName, numeric) == 0) {
+    if (field->hasField(fieldName, numeric)) {
       return true;
     }
   }
